@@ -101,7 +101,7 @@ def generate(rng, index, tier):
     if rng.chance(0.3):
         for _ in range(rng.randint(1, 2)):
             faults.append({'k': 'drop', 'at': rng.randrange(max(1, total))})
-    return {'threads': threads, 'schedule': sched, 'faults': faults}
+    return {'threads': threads, 'schedule': sched, 'faults': faults, 'tsmode': worlds.draw_tsmode(rng)}
 
 
 def _prot(bits):
